@@ -281,6 +281,9 @@ def processChain (rec : J) : Verdict := Id.run do
   let code := (rec.getD "code").strD
   let origJ := rec.getD "orig_map"
   v := v.addStat "has_orig" (.bool !origJ.isNull)
+  -- an original map can only come from a reference in this file's own text
+  if !origJ.isNull && ((rec.getD "src").strD.splitOn "sourceMappingURL=").length ≤ 1 then
+    v := v.addCheck "C10:original-map-used-for-a-file-that-references-none" (jstr ((rec.getD "orig_comment").strD.take 80).toString)
   match splitTrailer content with
   | none => return v.addCheck "C10:no-decodable-inline-map-trailer" (jstr "")
   | some (body, finalMap) =>
